@@ -27,6 +27,9 @@ def run_one(patch):
                 lines = [l.strip()[:260] for l in r.stdout.splitlines()
                          if l.startswith("CHECK-ERROR") or ("[" in l and "]" in l and not l.startswith(("KNOWN", "VIOLATION", "PASS", "FAIL")))]
                 bad.append("%s rc=%d: %s" % (p, r.returncode, " || ".join(lines[:3])))
+        if bad and all("the tree does not build" in b for b in bad):
+            # the patch still applies textually but was written against an older tree: not a verdict of the checks
+            return patch, "does-not-build", bad[:1]
         return patch, "clean" if not bad else "ALARM", bad
     finally:
         shutil.rmtree(tmp, ignore_errors=True)
